@@ -39,6 +39,9 @@ type CaseC18 struct {
 	BadStatic [][]byte `json:",omitempty"`
 	// Plan[g] lists the inputs goroutine g parses, in order: index < len(RT) is a realtime message, otherwise static feed index-len(RT).
 	Plan [][]int
+	// Rounds is how many times each goroutine goes through its plan (0 = once): many short calls, so that calls overlap in
+	// many different phases.
+	Rounds int `json:",omitempty"`
 }
 
 var c18Rec = vt.NewRecorder("C18", "TestC18",
@@ -108,16 +111,18 @@ func checkC18(c CaseC18) error {
 		go func(g int) {
 			defer wg.Done()
 			<-start
-			for _, in := range c.Plan[g] {
-				if in < 0 || in >= nIn {
-					continue
-				}
-				if in < len(rtBytes) {
-					r, err := gtfs.ParseRealtime(rtBytes[in], shared)
-					results[g] = append(results[g], result{input: in, rt: r, err: err})
-				} else {
-					s, err := gtfs.ParseStatic(stBytes[in-len(rtBytes)], sopts)
-					results[g] = append(results[g], result{input: in, st: s, err: err})
+			for round := 0; round < max(1, min(c.Rounds, 200)); round++ {
+				for _, in := range c.Plan[g] {
+					if in < 0 || in >= nIn {
+						continue
+					}
+					if in < len(rtBytes) {
+						r, err := gtfs.ParseRealtime(rtBytes[in], shared)
+						results[g] = append(results[g], result{input: in, rt: r, err: err})
+					} else {
+						s, err := gtfs.ParseStatic(stBytes[in-len(rtBytes)], sopts)
+						results[g] = append(results[g], result{input: in, st: s, err: err})
+					}
 				}
 			}
 		}(g)
@@ -165,6 +170,9 @@ func checkC18(c CaseC18) error {
 			for other := range results {
 				if other == g && len(c.Plan) > 1 {
 					continue
+				}
+				if c.Rounds > 1 && other != (g+1)%len(c.Plan) {
+					continue // many rounds: every result is still read by exactly one other goroutine
 				}
 				for _, res := range results[other] {
 					if res.err != nil {
@@ -330,6 +338,9 @@ func genC18(t *rapid.T) (CaseC18, bool) {
 			plan = append(plan, in)
 		}
 		c.Plan = append(c.Plan, plan)
+	}
+	if staticHeavy {
+		c.Rounds = rapid.SampledFrom([]int{1, 10, 25}).Draw(t, "rounds")
 	}
 	return c, c.Ext.Kind != "none"
 }
